@@ -10,7 +10,7 @@ from ..core import AnalysisError, Ctx, norm
 from ..pyfacts import dotted, calls_in, bind_args
 
 META = {
-    "explanation": "(W1) convert_lowercase is evaluated by PAI on every JSON type tag (list, dict, str, bytes, number, bool, None, nested): it recurses into lists and dict values, lower-cases dict keys and strings and returns everything else unchanged, without touching its argument. (W2) schema lint: every object schema admits hidden keys (patternProperties '^__[a-z]+__$'), every $ref names a file of the schemas folder, the registry retrieves from that folder. (W3) Validator.validate is evaluated with a recording stub for _get_errors: one call per root dictionary in list order, results concatenated, a single dictionary handled alike. (W4) the schema used follows the root dictionary's __type__ on the public path mappyfile.validate. (W5) 'always returns': create_message is evaluated on every shape a jsonschema absolute_path can take against a representative dictionary (root error, keyword value, item of a list-valued keyword, whole list, singleton block, object in a list at depth 1-3, key/value block, pair and number inside POINTS): it must return, name the offending keyword (or the enclosing object's type for object-level errors) and never index a scalar. (W6) _get_errors validates the lower-cased copy and hands the *original* dictionary to the message builder.",
+    "explanation": "(W1) convert_lowercase is evaluated by PAI on every JSON type tag (list, dict, str, bytes, number, bool, None, nested): it recurses into lists and dict values, lower-cases dict keys and strings and returns everything else unchanged, without touching its argument, and converts an object referenced from two places (no cycle) at both. (W2) schema lint: every object schema admits hidden keys (patternProperties '^__[a-z]+__$'), every $ref names a file of the schemas folder, the registry retrieves from that folder. (W3) Validator.validate is evaluated with a recording stub for _get_errors: one call per root dictionary in list order, results concatenated, a single dictionary handled alike. (W4) the schema used follows the root dictionary's __type__ on the public path mappyfile.validate. (W5) 'always returns': create_message is evaluated on every shape a jsonschema absolute_path can take against a representative dictionary (root error, keyword value, item of a list-valued keyword, whole list, singleton block, object in a list at depth 1-3, key/value block, pair and number inside POINTS): it must return, name the offending keyword (or the enclosing object's type for object-level errors) and never index a scalar. (W6) _get_errors validates the lower-cased copy and hands the *original* dictionary to the message builder.",
     "level_text": "Verdict equality with jsonschema is trusted; what is decided is that mappyfile hands jsonschema a faithful lower-cased JSON form, selects the right schema, and turns every possible error-path shape into a message without raising - the shapes are a finite classification of paths derived from the structure of the schemas (dict step / list-of-objects step / list-valued keyword step).",
     "level_note": "Trusted: jsonschema Draft-4 semantics and error paths (absolute_path is the instance path), referencing.Registry resolution. Message multiplicity for combined faults is not examined.",
     "technique": "abstract interpretation over JSON type tags and over error-path shapes + schema lint + by-name dataflow of the schema selection",
